@@ -93,7 +93,7 @@ def worker(job):
         oc = "ok" if out[0] == "ok" else out[1]["cls"]
         res["outcomes"][oc] = res["outcomes"].get(oc, 0) + 1
         bad = []
-        if out[0] == "exc" and driver.classify_exc(out[1]) in ("panic", "undocumented"):
+        if out[0] == "exc" and driver.classify_exc(out[1], op) in ("panic", "undocumented"):
             bad.append(("panic", "%s raised %s: %s" % (op, out[1]["cls"], out[1]["msg"][:120])))
         if "agent_err" in st:
             res["inconclusive"].append("agent could not parse a request: %s" % st.pop("agent_err"))
@@ -105,6 +105,10 @@ def worker(job):
             drv.call("open")
             continue
         bad += specs.check_walk(op, BASE, st["ex"], yields, ("ok",) if out[0] == "ok" else ("exc", out[1]), len(script))
+        if len(res.setdefault("samples", [])) < 2 and si % 60 == 11:
+            res["samples"].append({"cfg": cfg.key(), "op": op, "agent_script": [[(B.oid_text(U[oi]), k) for oi, k in r] for r in script][:4],
+                                   "requests_seen": [B.oid_text(e[0]) if e[0] else "" for e in st["ex"]][:6],
+                                   "yielded": [(B.oid_text(y[0]), y[1]) for y in yields][:6], "outcome": oc, "spec_disagreements": [b[0] for b in bad]})
         for sig, msg in bad:
             if len(res["bad"]) < 80:
                 res["bad"].append({"sig": sig, "msg": msg, "cfgkey": cfg.key(), "op": op,
@@ -141,9 +145,6 @@ def main():
                  rigp.Cfg("v1", client=cl)]
     nj = 16
     jobs = [{"seed": a.seed, "cfg": cfgs[j % len(cfgs)].to_json(), "cases": cases[j::nj]} for j in range(nj)]
-    chk.sample({"script": [[("base.2", "int")], [("base.2", "int")]], "op": "getnext",
-                "spec": "yield base.2 once; the repeated base.2 is non-increasing: must not be yielded, walk ends"})
-    chk.sample({"script": [[("base.1", "int"), ("above", "int"), ("base.3", "int")]], "op": "getbulk", "spec": "yield base.1 only, no further request"})
     outs = runner.run_workers("checks.c06", "worker", jobs, variant="rel", timeout=3000)
     st = {"walks": 0, "requests": 0, "yields": 0}
     for o in outs:
@@ -161,6 +162,8 @@ def main():
             chk.inconc(x)
         for k in st:
             st[k] += res[k]
+        for x in res.get("samples", [])[:1]:
+            chk.sample(x, limit=5)
         for oc in res["outcomes"]:
             chk.distinct.add("%s|%s" % (cfgkey, oc))
         for b in res["bad"]:
